@@ -183,7 +183,13 @@ fn from_arc_f64(d: &mut Draw) -> Outcome {
     let cosab = dotn(&a, &b);
     let unit_dot = cls == "generic" && cosab > 0.05 && d.chance(1, 3);
     let far = !unit_dot && cls == "generic" && cosab.abs() < 0.995 && d.chance(1, 3);
-    let (l1, l2) = if cls == "opposite" || cls == "equal" {
+    // opposite vectors with a fallback axis supplied: also at extreme, unbalanced lengths (|src| up to 2^+-480 with |dst|
+    // making up for it, so that |src|^2 |dst|^2 - the only product the statement's construction needs - stays ordinary)
+    let extreme = cls == "opposite" && d.chance(1, 3);
+    let (l1, l2) = if extreme {
+        let k = d.int(-480, 480) as i32;
+        ((2.0f64).powi(k), (2.0f64).powi(-k + d.int(-9, 9) as i32))
+    } else if cls == "opposite" || cls == "equal" {
         // powers of two keep exact (anti)parallelism exact
         ((2.0f64).powi(d.int(-9, 9) as i32), (2.0f64).powi(d.int(-9, 9) as i32))
     } else if unit_dot {
@@ -198,7 +204,7 @@ fn from_arc_f64(d: &mut Draw) -> Outcome {
         (d.f64_log(1e-3, 1e3), d.f64_log(1e-3, 1e3))
     };
     let cls = if unit_dot { "dot-is-one" } else if far { "generic-far-lengths" } else { cls };
-    let with_fb = d.bool();
+    let with_fb = d.bool() || extreme;
     let fb = perp_unit(&a, d);
     let src = Vector3::from(scale3(&a, l1));
     let dst = Vector3::from(scale3(&b, l2));
